@@ -567,6 +567,35 @@ impl Session {
         self.rx_ctr_state.post_recv(ctr, encrypted, false)
     }
 
+    /// `(reserved, expired, next tx message counter)` - read-only projection for the verification harness.
+    #[cfg(feature = "verif")]
+    pub fn verif_flags(&self) -> (bool, bool, u32) {
+        (self.reserved, self.expired, self.msg_ctr)
+    }
+
+    /// Per exchange slot: `None` if free, else `(exchange id, is initiator role, dropped state,
+    /// accept pending, retransmission pending, acknowledgement pending)`.
+    #[cfg(feature = "verif")]
+    pub fn verif_exchanges(
+        &self,
+    ) -> impl Iterator<Item = Option<(u16, bool, bool, bool, bool, bool)>> + '_ {
+        self.exchanges.iter().map(|e| {
+            e.as_ref().map(|e| {
+                (
+                    e.exch_id,
+                    matches!(e.role, Role::Initiator(_)),
+                    e.role.is_dropped_state(),
+                    matches!(
+                        e.role,
+                        Role::Responder(crate::transport::exchange::ResponderState::AcceptPending)
+                    ),
+                    e.mrp.is_retrans_pending(),
+                    e.mrp.is_ack_pending(),
+                )
+            })
+        })
+    }
+
     /// `(max_ctr, ctr_bitmap)` of this session's receive window.
     #[cfg(feature = "verif")]
     pub fn verif_rx_ctr_state(&self) -> (u32, u16) {
